@@ -309,7 +309,7 @@ static void embed(int from, int to, const LD* in, LD* out) {
   if (from == 9 && to == 6) { static const int k[6] = {0, 1, 2, 4, 5, 8}; for (int i = 0; i < 6; i++) out[i] = in[k[i]]; return; }
 }
 static Verdict c09_embed(const Case& c) {
-  const int nt = (int)c.i[0]; const Emb& e = kEmb[(size_t)c.i[1]]; const bool integer = c.i[2] != 0;
+  const int nt = (int)c.i[0]; const Emb& e = kEmb[(size_t)c.i[1]]; const bool integer = c.i[2] == 1;
   const Op &s = kOps[e.op_small], &b = kOps[e.op_big];
   LD a1[9], b1[9], a2[9], b2[9], r1[9], r2[9], r1e[9];
   for (int i = 0; i < s.na; i++) a1[i] = c.r[(size_t)i]; for (int i = 0; i < s.nb; i++) b1[i] = c.r[(size_t)(s.na + i)];
@@ -317,12 +317,17 @@ static Verdict c09_embed(const Case& c) {
   const bool division = std::string(s.name).find("/") != std::string::npos;
   if (division && b1[0] == 0) return Verdict::skip("division-by-zero");
   const bool p1 = lib(nt, e.op_small, a1, b1, r1), p2 = lib(nt, e.op_big, a2, b2, r2);
+  const bool exactly_singular = c.i[2] == 2;
+  if (p1 != p2 && exactly_singular)
+    return Verdict::fail(fmt("%s is %s but %s of the embedding is %s for the exactly singular tensor A = %s (two equal rows, or one row twice another; %s): the symmetric type and its embedding in Dyad do not give the same result",
+                             s.name, p1 ? "present" : "absent", b.name, p2 ? "present" : "absent", cs(a1, s.na).c_str(), ntinfo(nt).name));
   if (p1 != p2) { if (integer) return Verdict::fail(fmt("%s is %s but %s of the embedding is %s (A = %s, %s)", s.name, p1 ? "present" : "absent", b.name, p2 ? "present" : "absent", cs(a1, s.na).c_str(), ntinfo(nt).name)); return Verdict::skip("determinant-rounds-differently"); }
-  if (!p1) { Verdict V; V.cls = "both-absent"; return V; }
+  if (!p1) { Verdict V; V.cls = exactly_singular ? "both-absent;real-exactly-singular" : "both-absent"; V.nontrivial = exactly_singular; return V; }
   const int rs1 = res_shape(e.op_small), rs2 = res_shape(e.op_big);
   embed(rs1, rs2, r1, r1e);
   if (rs1 > rs2) { for (int i = 0; i < rs2; i++) r1e[i] = r1[i]; }
   Q ref[9], mag[9]; ref_op(e.op_big, a2, b2, ref, mag);
+  if (exactly_singular) { Verdict V; V.cls = "both-present;real-exactly-singular"; return V; }   // two inverses of a singular tensor: nothing to compare
   const bool exact = integer && !division && e.op_small != S_INV && e.op_small != P_MAG;
   for (int i = 0; i < rs2; i++) {
     if (exact ? !same_bits(nt, r1e[i], r2[i]) && !(r1e[i] == 0 && r2[i] == 0) : false)
@@ -334,7 +339,7 @@ static Verdict c09_embed(const Case& c) {
       if (!(d <= (e.op_small == S_INV ? 64.0 : 8.0))) return Verdict::fail(fmt("%s = %s but %s of the embedding = %s: component %d differs by %.3g ulp (%s)", s.name, cs(r1, rs1).c_str(), b.name, cs(r2, rs2).c_str(), i, d, ntinfo(nt).name));
     }
   }
-  Verdict V; V.cls = std::string(ntinfo(nt).name) + (integer ? ";integer" : ";real"); V.nontrivial = true; for (int k = 0; k < s.na + s.nb; k++) if (c.r[(size_t)k] == 0) V.nontrivial = false;
+  Verdict V; V.cls = std::string(ntinfo(nt).name) + (exactly_singular ? ";real-exactly-singular" : integer ? ";integer" : ";real"); V.nontrivial = true; for (int k = 0; k < s.na + s.nb; k++) if (c.r[(size_t)k] == 0) V.nontrivial = false;
   return V;
 }
 
@@ -537,11 +542,20 @@ int main(int argc, char** argv) {
     const int ne = (int)(sizeof(kEmb) / sizeof(kEmb[0]));
     Sub s; s.name = "c09.embedding"; s.property = "C09"; s.instances = ne * 3; s.n_quick = 1500; s.n_thorough = 30000; s.run = c09_embed;
     s.gen = [ne](int inst) { const int e = inst % ne, nt = inst / ne; const Op& o = kOps[kEmb[e].op_small]; const int n = o.na + o.nb;
-      return rc::gen::mapcat(irange(0, 1), [=](int integer) {
-        auto g = integer ? rc::gen::container<std::vector<LD>>((size_t)n, rc::gen::map(irange(-64, 64), [](int x) { return (LD)x; })) : gen_reals(n, nt, -8, 8, kNeg);
+      const bool symmetric_inverse = kEmb[e].op_small == S_INV;
+      return rc::gen::mapcat(irange(0, symmetric_inverse ? 2 : 1), [=](int integer) {
+        auto g = integer == 1 ? rc::gen::container<std::vector<LD>>((size_t)n, rc::gen::map(irange(-64, 64), [](int x) { return (LD)x; })) : gen_reals(n, nt, -8, 8, kNeg);
+        if (integer == 2) {
+          // exactly singular symmetric tensors with full-mantissa components: rows 1 = 2, 2 = 3, 1 = 3, or row 2 = 2 x row 1 (the determinant is exactly zero, not zero up to rounding)
+          return rc::gen::map(rc::gen::tuple(gen_reals(3, nt, -8, 8, kNeg), irange(0, 3)), [=](const std::tuple<std::vector<LD>, int>& t) {
+            const LD a = std::get<0>(t)[0], b = std::get<0>(t)[1], cc = std::get<0>(t)[2];
+            Case c; c.i = {nt, e, 2};
+            switch (std::get<1>(t)) { case 0: c.r = {a, a, b, a, b, cc}; break; case 1: c.r = {a, b, b, cc, cc, cc}; break; case 2: c.r = {a, b, a, cc, b, a}; break; default: c.r = {a, 2 * a, b, 4 * a, 2 * b, cc}; }
+            return c; });
+        }
         return rc::gen::map(g, [=](const std::vector<LD>& v) { Case c; c.i = {nt, e, integer}; c.r = v; return c; }); }); };
     s.instance_name = [ne](int inst) { return std::string(kOps[kEmb[inst % ne].op_small].name) + " vs " + kOps[kEmb[inst % ne].op_big].name; };
-    s.rule = "symmetric and planar types against their embeddings in Dyad / Vector (z = 0), operation by operation: bit-equal on integer inputs, within 8 ulp of the sum of |terms| on reals; non-trivial: no zero component";
+    s.rule = "symmetric and planar types against their embeddings in Dyad / Vector (z = 0), operation by operation: bit-equal on integer inputs, within 8 ulp of the sum of |terms| on reals; the inverse of exactly singular real symmetric tensors (equal rows, one row twice another, full-mantissa components) is present / absent in both types alike; non-trivial: no zero component";
     subs.push_back(s);
   }
   {
